@@ -92,6 +92,7 @@ def expand(spec):
 
 class C20(Prop):
     id = "C20"
+    track_states = True
     quick_runs = 400
     thorough_runs = 12000
     claim = ("generated lifecycle histories (plain / reusable with resize / nested / broken by a crashing task / "
